@@ -18,8 +18,8 @@ sys.path.insert(0, os.path.dirname(os.path.dirname(os.path.abspath(__file__))))
 from harness import common  # noqa: E402
 from harness.common import EVID, REPLAY, VERIF, dumps, log  # noqa: E402
 
-ENV_PROPS = {"C01", "C03", "C04", "C05", "C06", "C07", "C08", "C09", "C10", "C11", "C12"}
-LIB_PROPS = {"C02": "c02", "C13": "c13", "C14": "c14", "C15": "c15", "C16": "c16", "C17": "c17", "C18": "c18",
+ENV_PROPS = {"C01", "C03", "C04", "C05", "C06", "C07", "C08", "C09", "C10", "C11", "C12", "C17"}
+LIB_PROPS = {"C02": "c02", "C13": "c13", "C14": "c14", "C15": "c15", "C16": "c16", "C18": "c18",
              "C19": "c19"}
 
 
